@@ -24,6 +24,9 @@ def expected_partner_view(x2, shape):
     return out
 
 
+P1 = {"samples": 0, "mixed": 0}
+
+
 def judge(ds, i, x, y, C):
     """-> ("unmixed" | "mixed", None) when (x, y) is sample i untouched / a convex combination whose label shows the same partner
     and weight as the data; (None, finding) otherwise"""
@@ -86,8 +89,11 @@ def contract(cfg, seed):
                 return {"what": "the image delivered for mode order '%s' is not the draw of the joint request" % mode, "idx": i}
             if "class" in items and not torch.allclose(items["class"], y, atol=1e-6):
                 return {"what": "the label delivered for mode order '%s' is not the draw of the joint request" % mode, "idx": i}
-    if cfg["p"] >= 1.0 and n >= 3 and mixed == 0:
-        return {"what": "a probability-one configuration left every sample unmixed", "n": n}
+    if cfg["p"] >= 1.0 and n >= 2:
+        # a single configuration can look unmixed by chance (partner == i, or a beta draw that rounds to 1 in float32); the
+        # clause is judged over the whole grid (and proved for every draw by the contract on getitem_xclass)
+        P1["samples"] += n
+        P1["mixed"] += mixed
     # unseeded: whatever order image and label are requested in, one request delivers one draw (same partner, same weight)
     for mode in ("x class", "class x", "class index x", "index x class"):
         mw = ModeWrapper(mk(None), mode=mode)
@@ -114,6 +120,7 @@ def search(seed, thorough=False):
     """-> (first failing case or None, cases evaluated, distinct non-trivial cases); the whole grid is evaluated either way"""
     n = nt = 0
     first = None
+    P1["samples"] = P1["mixed"] = 0
     for cfg in configs():
         for s in range(seed, seed + (20 if thorough else 4)):
             n += 1
@@ -127,4 +134,6 @@ def search(seed, thorough=False):
             if r is not None and first is None:
                 r["input"] = dict(cfg, seed=s)
                 first = r
+    if first is None and P1["samples"] >= 50 and P1["mixed"] == 0:
+        first = {"what": "probability-one configurations never mixed any of %d samples" % P1["samples"], "input": {"p": 1.0}}
     return first, n, nt
